@@ -44,6 +44,7 @@ type recRegistry struct {
 	mu    sync.Mutex
 	procs []*recProc
 	rnd   *rand.Rand
+	stall time.Duration // the Start of the next processor built takes this long (once): the event loop is busy meanwhile
 }
 
 func (g *recRegistry) Build(params proc.BuildParams) (proc.Proc, error) {
@@ -51,7 +52,13 @@ func (g *recRegistry) Build(params proc.BuildParams) (proc.Proc, error) {
 	defer g.mu.Unlock()
 	d := time.Duration(g.rnd.Intn(2000)) * time.Microsecond
 	slow := g.rnd.Intn(3) == 0
+	stall := g.stall
+	g.stall = 0
 	p := &recProc{name: params.Name, reg: g, cfg: params.Cfg, hosts: host.NewSet(params.Hosts...), delay: func() {
+		if stall > 0 {
+			time.Sleep(stall)
+			stall = 0
+		}
 		if slow {
 			time.Sleep(d)
 		}
@@ -164,6 +171,9 @@ func c08Histories(r *ev.Run, div int) {
 		if !c08History(r, r.Seed*1000003+int64(hi), hi) {
 			return
 		}
+		if r.Violations() >= 3 {
+			return // enough witnesses (a stuck event loop costs 20 s per history)
+		}
 	}
 }
 
@@ -205,7 +215,27 @@ func c08History(r *ev.Run, seed int64, hi int) bool {
 	features := map[string]bool{}
 	n := 5 + rnd.Intn(75)
 	r.Checkpoint(map[string]interface{}{"phase": "history", "seed": seed})
+	burstAt := -1
+	if rnd.Intn(3) == 0 {
+		burstAt = rnd.Intn(n)
+	}
 	for step := 0; step < n; step++ {
+		if step == burstAt {
+			// more updates than the event channel holds arrive while the controller is busy starting a processor (120 ms): every
+			// one of them must still be applied, in order
+			burst := prefix + "burst"
+			c08Registry.mu.Lock()
+			c08Registry.stall = 120 * time.Millisecond
+			c08Registry.mu.Unlock()
+			cfg.VerifDependencyUpdate([]*service.Service{{Name: burst}}, nil)
+			cfg.VerifSvcConfigUpdate(burst, c08Cfg(3100, 1))
+			cfg.VerifSvcEndpointUpdate(burst, []*service.Endpoint{ep(0, false)}, nil)
+			for i := 1; i <= 45; i++ {
+				cfg.VerifSvcEndpointUpdate(burst, []*service.Endpoint{ep(i%6, i%5 == 0)}, []*service.Endpoint{ep((i-1)%6, (i-1)%5 == 0)})
+			}
+			trace = append(trace, "burst: dep+ cfg eps+ and 45 endpoint replacements on 'burst' while its processor is starting")
+			features["burst-over-the-event-queue"] = true
+		}
 		name := names[rnd.Intn(npool)]
 		if rnd.Intn(12) == 0 {
 			name = prefix + "unknown" // never a dependency
@@ -277,6 +307,20 @@ func c08History(r *ev.Run, seed int64, hi int) bool {
 			}
 			cfg.VerifSvcConfigUpdate(name, c)
 		default:
+			if rnd.Intn(5) == 0 && inDeps[name] && !hasCfg[name] {
+				// the endpoint list becomes known and empty before the configuration arrives: the service is announced with no
+				// endpoint at all, its processor must exist (and get the endpoints that follow)
+				e0 := ep(rnd.Intn(6), false)
+				cfg.VerifSvcEndpointUpdate(name, []*service.Endpoint{e0}, nil)
+				cfg.VerifSvcEndpointUpdate(name, nil, []*service.Endpoint{e0})
+				c := c08Cfg(3000+rnd.Intn(4), rnd.Intn(5))
+				cfg.VerifSvcConfigUpdate(name, c)
+				hasCfg[name] = true
+				delete(latestInvalid, name)
+				trace = append(trace, fmt.Sprintf("eps %s +%s; eps %s -%s; cfg(port %d) %s", short, epsStr([]*service.Endpoint{e0}), short, epsStr([]*service.Endpoint{e0}), c.Listener.Address.Port, short))
+				features["announced-with-an-empty-endpoint-list"] = true
+				continue
+			}
 			var added, removed []*service.Endpoint
 			na, nr := rnd.Intn(4), rnd.Intn(3)
 			for i := 0; i < na; i++ {
